@@ -92,6 +92,8 @@ def run(ctx: fw.Ctx):
             ctx.fail({"clause": "value-exception-class", "exc": type(exc).__name__}, {"doc": base, "value": t},
                      f"VALUE {t!r} raised {type(exc).__name__}: {exc}")
     ec.correspond(ctx, hists)
+    # texts the command line can carry (no NUL, no CR) with unusual characters first
+    cli_inputs = [t for t in cli_inputs if "\x00" not in t and "\r" not in t]
     cli_inputs.sort(key=lambda t: 0 if any(ord(c) > 127 or ord(c) < 32 and c not in "\n\t" for c in t) else 1)
     cli_test(ctx, cli_inputs[: (40 if ctx.quick else 300)])
 
